@@ -46,7 +46,7 @@ def make(cfg):
         u=float(fr(cfg["u"])),
         N=N,
         t=float(fr(cfg["t"])),
-        random_order=cfg.get("ro", True),
+        random_order=(np.bool_(cfg.get("ro", True)) if cfg["N"] is not None else cfg.get("ro", True)),  # finite N: the flag as a numpy boolean
         **kw,
     )
 
